@@ -27,7 +27,7 @@ def bounds(tier):
     return dict(enzymes=ENZ, k=[1, 2], per_record="{upper,lower}^(k+1)", regions="site, filler, overhangs, body, backbone, placeholder of each plasmid",
                 alternating="both phases, all records and one record", per_letter="both occurrences of each junction overhang, all 2^ov x 2^ov assignments (BsaI k=1; BspD6I k=2)",
                 errors="missing / duplicate / reverse-complementary / invalid vector x {upper,lower}^(k+1)",
-                typing="every concrete kit class x instances x {lower, alternating0, alternating1}")
+                typing="every concrete kit class x instances (own, siblings', with an extra cutter site) x {lower, alternating0, alternating1, lower-case prefix / suffix of k/6 of the record}")
 
 
 def goals(tier):
@@ -48,6 +48,10 @@ def transform(s, t):
         return alt(s, 0)
     if t == "A1":
         return alt(s, 1)
+    if t[0] in "PS":
+        # block-wise spelling: a lower-case prefix (P) or suffix (S) of n*k/6 letters (soft-masked regions)
+        cut = len(s) * int(t[1]) // 6
+        return (s[:cut].lower() + s[cut:].upper()) if t[0] == "P" else (s[:cut].upper() + s[cut:].lower())
     raise ValueError(t)
 
 
@@ -266,7 +270,7 @@ def run_unit(unit, st, tier):
                 pass
             for text in texts:
                 ref = typing_obs(cls, text.upper())
-                for t in ("L", "A0", "A1"):
+                for t in ("L", "A0", "A1", "P1", "P2", "P3", "P4", "P5", "S1", "S2", "S3", "S4", "S5"):
                     s = transform(text, t)
                     got = typing_obs(cls, s)
                     st.scenario("typing-" + ("accepts" if ref[0] is True else "rejects"), None)
